@@ -2027,3 +2027,61 @@ def _c11q(fb, rep):
 
 RULES['C10'] = _c10q
 RULES['C11'] = _c11q
+
+
+# ================================================================================================ twelfth batch (generic shape S13: seed C07-2)
+def _s13_scan(fb):
+    """S13: a sign flip `X *= -1` inside a loop, where X is an element (a subscript or an accessor call with arguments), addresses a DIFFERENT element in
+    every iteration: some variable in X's index is changed inside the loop.  Flipping the same element on every pass leaves it flipped or not by the parity
+    of the trip count and never touches the others.  Plain variables (locals recomputed per pass) are not elements and are skipped."""
+    out, seen = [], set()
+    for f in sorted(fb.funcs.values(), key=lambda g: (g.file, g.line, g.name)):
+        if not f.nodes or not f.file.startswith('/repo/src/soplex/'):
+            continue
+        for n in f.nodes:
+            if n.k not in ('CompoundAssignOperator', 'CXXOperatorCallExpr') or n.o != '*=':
+                continue
+            kids = n.kids if n.k != 'CXXOperatorCallExpr' else n.args()
+            if len(kids) < 2 or not re.match(r'^\(?-1(\.0*)?\)?$', render(strip(kids[1]))):
+                continue
+            lhs = render(strip(kids[0]))
+            m = re.search(r'[\[(](.*)[\])]\)?$', lhs)
+            if not m or not re.search(r'[A-Za-z_]', m.group(1)):
+                continue
+            loops = [a for a in list(f.ancestors(n)) if a.k in ('ForStmt', 'WhileStmt', 'DoStmt')]
+            if not loops or (f.file, n.l) in seen:
+                continue
+            seen.add((f.file, n.l))
+            ivars = set(re.findall(r'\b[A-Za-z_]\w*\b(?!\s*\()', m.group(1)))
+            changed = set()
+            for x in loops[0].walk():
+                if x.k == 'UnaryOperator' and (x.o or '').replace('post', '').replace('pre', '') in ('++', '--'):
+                    changed |= set(re.findall(r'\b[A-Za-z_]\w*\b', render(x)))
+                elif x.k in ('BinaryOperator', 'CompoundAssignOperator') and (x.o or '') in ('=', '+=', '-='):
+                    changed |= set(re.findall(r'\b[A-Za-z_]\w*\b', render(strip(x.kids[0]))))
+                elif x.k == 'VarDecl' and x.n:
+                    changed.add(str(x.n).split('::')[-1])
+            out.append((f, '%s|%s *= -1' % (f.short, lhs[:40]), '%s:%d' % (f.file, n.l), bool(ivars & changed), lhs, sorted(ivars)))
+    return out
+
+
+def s13(pid, fb, rep):
+    from shapes import owner
+    res = _s13_scan(fb)
+    if len(res) < 10:
+        raise AnalysisBroken('S13: only %d sign flips of an element inside a loop found in the program' % len(res))
+    mine = [t for t in res if owner(t[0]) == pid]
+    if not mine:
+        return
+    rid = 'R%s.S13' % pid[1:]
+    rep.rule(rid, 'a sign flip `X[..] *= -1` inside a loop addresses an element that depends on a variable the loop changes (generic shape rule over the functions this property owns)', floor=1)
+    for f, key, where, ok, lhs, iv in mine:
+        rep.check(ok, rid, key, where, 'index varies with the loop',
+                  'the loop flips the sign of the SAME element `%s` on every pass (none of %s changes inside the loop): that element ends up flipped or not by the parity of '
+                  'the trip count and the other elements keep their sign' % (lhs[:50], iv))
+
+
+def run(pid, fb, rep):      # noqa: F811 - the dispatcher of the top of the file, extended by the generic shape S13
+    if pid in RULES:
+        RULES[pid](fb, rep)
+    s13(pid, fb, rep)
